@@ -52,7 +52,7 @@ func c18Check(L *LState, tb *LTable, model []float64, label string) {
 
 // C18.listops — insert/remove/concat/maxn/getn/unpack on a list, with symbolic positions.
 //
-//verif:harness prop=C18 tier=quick qparams=steps:3 tparams=steps:4 bounds="list of n<=3 symbolic numbers; histories of steps (3 quick / 4 thorough) operations from {insert(t,v), insert(t,pos,v) with 1<=pos<=n+1, remove(t), remove(t,pos) with 1<=pos<=n, t[n+1]=v, t[n]=nil}; pos symbolic; then concat/maxn/getn/unpack checked"
+//verif:harness prop=C18 tier=quick qparams=steps:3 tparams=steps:4 bounds="list of n<=3 symbolic numbers; histories of steps (3 quick / 4 thorough) operations from {insert(t,v), insert(t,pos,v) with 1<=pos<=n+1, remove(t), remove(t,pos) with 1<=pos<=n, t[n+1]=v, t[n]=nil, and as a last step insert(t,pos,nil) with 1<=pos<=n}; pos symbolic; then concat/maxn/getn/unpack checked"
 func H_C18_listops() {
 	L := newL(Options{}, BaseLibName, TabLibName)
 	tabmod := L.GetGlobal("table")
@@ -82,7 +82,28 @@ func H_C18_listops() {
 	steps := VParam("steps", 2)
 	for s := 0; s < steps; s++ {
 		ln := len(model)
-		switch VChoice(6) {
+		switch VChoice(7) {
+		case 6: // insert(t, pos, nil) with 1 <= pos <= n: the tail still moves up and t[pos] becomes nil (last step: the list has a hole afterwards)
+			if ln == 0 {
+				continue
+			}
+			pos := int(VI32("pos"))
+			VAssume(VAnd(pos >= 1, pos <= ln))
+			call("insert", 0, tb, LNumber(pos), LNil)
+			pos = VConc(pos)
+			for i := 1; i <= ln+1; i++ {
+				got := tb.RawGetInt(i)
+				switch {
+				case i < pos:
+					VAssert(sameValue(got, LNumber(model[i-1])), "insert(t, pos, nil): elements below pos stay")
+				case i == pos:
+					VAssert(got == LNil, "insert(t, pos, nil): t[pos] is nil")
+				default:
+					VAssert(sameValue(got, LNumber(model[i-2])), "insert(t, pos, nil): elements from pos on move up by one")
+				}
+			}
+			VReach("end")
+			return
 		case 0: // append
 			v := float64(VI32("v"))
 			call("insert", 0, tb, LNumber(v))
